@@ -127,7 +127,8 @@ CLEANUP_TAGS = ["LiveSpared", "Listed", "panic", "notEnabled", "group", "muxer",
 
 
 def _steps(names):
-    return [{"name": n} for n in names.split()]
+    # "TimerFire!": the publisher of the PubStart that follows arrives inside the expiry (between decision and removal)
+    return [{"name": n.rstrip("!"), "race": n.endswith("!")} for n in names.split()]
 
 
 # behaviours every run replays whatever the seed (each for cleanup_mode 1 and 2; without the expiries for mode 0):
@@ -143,6 +144,10 @@ CLEANUP_DIRECTED = [
     "PubStart Feed PubStop Tick PubStart PubStop Tick TimerFire PubStart Feed TimerFire Feed PubStop TimerFire",
     # nobody comes back
     "PubStart Feed PubStop TimerFire", "PubStart PubStop Tick TimerFire SubJoin Tick SubLeave Tick",
+    # the publisher comes back while the timer is between its decision and the removal (new Group; the Group kept by a subscriber)
+    "PubStart Feed PubStop Tick TimerFire! PubStart Feed PubStop TimerFire",
+    "SubJoin PubStart Feed PubStop Tick TimerFire! PubStart Feed Feed PubStop SubLeave Tick TimerFire",
+    "PubStart PubStop TimerFire! PubStart Feed PubStop Tick TimerFire",
 ]
 
 
@@ -179,7 +184,8 @@ def run_cleanup(ctx):
         if key in seen or not steps:
             return
         seen.add(key)
-        scen.append({"sc": len(scen), "src": src, "mode": mode, "fragMs": CLEANUP_FRAG_MS, "steps": [{"name": s["name"]} for s in steps]})
+        scen.append({"sc": len(scen), "src": src, "mode": mode, "fragMs": CLEANUP_FRAG_MS,
+                     "steps": [{"name": s["name"], "race": bool(s.get("race"))} for s in steps]})
 
     for d in CLEANUP_DIRECTED:
         for mode in (1, 2, 0):
